@@ -312,3 +312,27 @@ Definition gone_ok (is_eups fwd : bool) (old new : env) : bool :=
   else true.
 
 Definition env_equiv (a b : env) : Prop := forall k, alookup k a = alookup k b.
+
+(* the hypotheses of the property, bundled: names are identifiers, the new environment is a
+   dict, changed values lie in the claim alphabet, and gone_ok *)
+Definition in_claim (is_eups fwd : bool) (old new : env) : bool :=
+  valid_names old && valid_names new && nodup_keys (akeys new) && claim_env old new &&
+  gone_ok is_eups fwd old new.
+
+(* env' is what the shell fragment leaves after sourcing, from old, the text printed for a
+   successful setup (fwd) or unsetup of a product (is_eups: the product is eups itself) that
+   computed the environment new; no aliases *)
+Definition sourced (is_eups fwd : bool) (old new env' : env) : Prop :=
+  exists cmds, emit Sh is_eups fwd old new [] [] = Ok cmds /\ sh_source (render cmds) old = Ok env'.
+
+(* --force: the table actions envSet, envPrepend and envAppend delete their variable from
+   Eups.oldEnviron (so that its export is emitted again even when the value did not change);
+   the baseline of the delta is then the caller's environment minus the forced names, while
+   the shell still starts from the caller's environment *)
+Definition forget (forced : list str) (caller : env) : env :=
+  fold_left (fun e k => aremove k e) forced caller.
+
+(* what the (repaired) table actions guarantee: a forgotten variable is one the action then
+   sets, so it is present in the computed environment *)
+Definition forced_ok (forced : list str) (new' : env) : bool :=
+  forallb (fun k => amem k new') forced.
